@@ -37,6 +37,7 @@ def showErr : Err → String
   | .dbError => "db-error"
   | .noCoin => "no-coin"
   | .commitFail => "commit-failed"
+  | .wrongPass => "wrong-pass"
 
 def showRow (r : Row) : String := s!"{r.name}:{r.key}:{r.ext}:{r.int}"
 
@@ -60,7 +61,8 @@ def digest (d : Disk) (m : Mem) (names : List Nat) (us : List (Scope × Addr)) (
     (if nx then base ++ s!";NX={joinWith "," nxs}" else base) ++ "}"
   joinWith " " ((allScopes.zip scopeNames).map fun p => one p.1 p.2)
 
-def diskDigest (st : St) : String := "D[" ++ digest st.s.disk emptyMem st.names st.us true ++ "]"
+def diskDigest (st : St) : String :=
+  "D[" ++ digest st.s.disk emptyMem st.names st.us true ++ s!" P={st.s.disk.priv}/{st.s.disk.pub}]"
 
 def addU (us : List (Scope × Addr)) (sc : Scope) (ads : List Addr) : List (Scope × Addr) :=
   ads.foldl (fun l ad => if l.contains (sc, ad) then l else l ++ [(sc, ad)]) us
@@ -107,6 +109,27 @@ def exec (st : St) (sc : Scope) (op : Op) (names : List Nat) : St × String :=
     | .imported a row _ _, _ => (s!"ok acct={a} props={showRow row}", [])
   let st' : St := { s := s', names := names, us := addU st.us sc (ads ++ lost) }
   (st', txt ++ " " ++ diskDigest st')
+
+/-- passphrase id below `n` -/
+def pass? (s : Option String) (n : Nat) : Option Nat :=
+  match s.bind String.toNat? with
+  | some v => if v < n then some v else none
+  | none => none
+
+def nPriv : Nat := 4
+def nPub : Nat := 3
+
+/-- `passprobe`: Unlock with every other known private passphrase (ascending), then with the one a restarted wallet
+accepts; the lock state is restored -/
+def probe (s : State) : State × String :=
+  let cur := s.disk.priv
+  let ids := ((List.range nPriv).filter (· != cur)) ++ [cur]
+  let r := ids.foldl (fun (acc : State × List String) id =>
+    let x := step acc.1 (.unlockPass id)
+    let t := match x.2 with | .err e => showErr e | _ => "ok"
+    (x.1, acc.2 ++ [s!"{id}:{t}"])) (s, [])
+  let s' := if s.mem.locked then (step r.1 .lock).1 else r.1
+  (s', "probe " ++ joinWith "," r.2)
 
 def fresh : St := { s := init, names := [1], us := [] }
 
@@ -173,7 +196,27 @@ def step' (st : Option St) (line : String) : Option St × String :=
         | some sc, some nm => wrap (exec st sc (.newAcct sc nm) (addName st.names nm))
         | _, _ => (some st, "bad-op")
       | "lock" => wrap (exec st 0 .lock st.names)
-      | "unlock" => wrap (exec st 0 .unlock st.names)
+      | "unlock" =>
+        match kv rest "pass" with
+        | none => wrap (exec st 0 (.unlockPass st.s.disk.priv) st.names)
+        | some v =>
+          match pass? (some v) nPriv with
+          | some p => wrap (exec st 0 (.unlockPass p) st.names)
+          | none => (some st, "bad-op")
+      | "passprobe" =>
+        let r := probe st.s
+        let st' : St := { st with s := r.1 }
+        (some st', r.2 ++ " " ++ diskDigest st')
+      | "chpriv" | "chpub" =>
+        let n := if op == "chpriv" then nPriv else nPub
+        match pass? (kv rest "old") n, pass? (kv rest "new") n with
+        | some o, some nw => wrap (exec st 0 (.chPass (op == "chpriv") o nw) st.names)
+        | _, _ => (some st, "bad-op")
+      | "chboth" =>
+        match pass? (kv rest "pubold") nPub, pass? (kv rest "pubnew") nPub, pass? (kv rest "privold") nPriv,
+            pass? (kv rest "privnew") nPriv with
+        | some po, some pn, some vo, some vn => wrap (exec st 0 (.chBoth po pn vo vn) st.names)
+        | _, _, _, _ => (some st, "bad-op")
       | "cmp" =>
         let r := "R[" ++ digest st.s.disk st.s.mem st.names st.us false ++ "]"
         let st' : St := { st with s := (step st.s (.cmp allScopes st.us)).1 }
